@@ -56,7 +56,7 @@ class Scene:
         def f():
             return checkout(self.ws, self.fs, self.obj(oid), self.odb, state=self.state, **kw)
 
-        kind, res = safe_call(f, expected=(PromptError, CheckoutError, LinkError))
+        kind, res = safe_call(f, expected=(PromptError, CheckoutError, LinkError, FileNotFoundError))
         if kind == "ok":
             return {"ok": bool(res)}
         return {"err": res}
@@ -151,6 +151,13 @@ class Scene:
             with open(os.path.join(self.ws, rel), "wb") as f:
                 f.write(b"precious-%d" % rng.randrange(10**6))
             done.append(["add_uncached", rel])
+        if rng.random() < 0.12 and "dangling" in kinds and os.path.isdir(self.ws):
+            # a symbolic link to nothing next to the tracked files (a moved target, a half-extracted archive)
+            sub = rng.choice([""] + sorted({os.path.dirname(r) for r in files if os.path.dirname(r)}))
+            rel = os.path.join(sub, "dangling-link")
+            if os.path.isdir(os.path.join(self.ws, sub)) and not os.path.lexists(os.path.join(self.ws, rel)):
+                os.symlink(os.path.join(self.root, "nowhere"), os.path.join(self.ws, rel))
+                done.append(["add_dangling_symlink", rel])
         return done
 
     def close(self):
@@ -223,7 +230,8 @@ def check_force(ctx, rng):
                 target[k] = rng.choice(list(prior.values()))  # duplicate content
         if rng.random() < 0.5:
             target[(rng.choice(["extra", "more"]),)] = rng.choice([b"", b"new-content"])
-        edits = sc.user_edits() if rng.random() < 0.6 else []
+        edits = sc.user_edits(kinds=("replace_uncached", "replace_cached", "add", "delete", "dangling")) if rng.random() < 0.6 else []
+        dangling = any(e[0] == "add_dangling_symlink" for e in edits)
         t2 = sc.put_tree(target)
         before = sc.walk()
         cache_before = sc.cache_snapshot()
@@ -262,6 +270,13 @@ def check_force(ctx, rng):
         # ---- oracle
         want = {"/".join(k): md5hex(c) for k, c in target.items()}
         got = {k: v[0] for k, v in after.items()}
+        if dangling:
+            ctx.count("prior_with_dangling_symlink")
+            # known finding: the workspace cannot be read, checkout passes the error on (and touches nothing) instead of converging
+            untouched = res.get("err") == "FileNotFoundError" and after == before
+            ctx.oracle("ok" in res and got == want, case, {"why": "forced checkout over a workspace that holds a symbolic link to nothing did not converge", "result": res},
+                       signature="prior-workspace-holds-a-dangling-symlink" if untouched else None)
+            return
         ctx.oracle("ok" in res and got == want, case, {"why": "forced checkout did not leave exactly the target", "result": res, "got": got, "want": want})
         ctx.oracle(res2 == {"ok": False} and after2 == after, case, {"why": "a second checkout did not report 'nothing to do'", "second": res2})
         if relink and "ok" in res:
@@ -276,6 +291,65 @@ def check_force(ctx, rng):
                                                             "saved": str(link_rec[0]), "workspace": str(link_rec[1])})
         if len(ctx.samples) < 2:
             ctx.sample({"case": case["force_checkout"], "result": res})
+    finally:
+        sc.close()
+
+
+def check_commit_between(ctx, rng):
+    """one process, one cache: contents the workspace held while they were not cached are committed later (or an object is
+    collected and fetched again); a checkout of a target the workspace already equals reports nothing to do, and a relinking
+    one links to the object that is in the cache now"""
+    sc = Scene(ctx, rng)
+    try:
+        prior = gen.rand_tree(rng, max_files=4, allow_odd=False)
+        t1 = sc.put_tree(prior)
+        link = rng.choice(LINKS)
+        sc.checkout(t1, [link], force=True)
+        # the user writes new contents (not in the cache) ...
+        fresh = {}
+        for k in sorted(prior)[: rng.randrange(1, len(prior) + 1)]:
+            fresh[k] = b"uncommitted-%d-" % rng.randrange(10**6) + "/".join(k).encode()
+            p = os.path.join(sc.ws, *k)
+            os.remove(p)
+            with open(p, "wb") as f:
+                f.write(fresh[k])
+        # ... a forced checkout of the old version throws them away (the diff has now looked at them while they were uncached) ...
+        r1 = sc.checkout(t1, [link], force=True)
+        # ... then re-creates and commits them
+        target = {**prior, **fresh}
+        for k, c in fresh.items():
+            p = os.path.join(sc.ws, *k)
+            os.remove(p)
+            with open(p, "wb") as f:
+                f.write(c)
+        t2 = sc.put_tree(target)
+        refetch = None
+        if link == "hardlink" and rng.random() < 0.5:
+            # an object of an unchanged file is collected and fetched again: same bytes, another inode
+            same = [k for k in prior if k not in fresh and prior[k]]
+            if same:
+                refetch = "/".join(same[0])
+                cp = sc.cache_path(md5hex(prior[same[0]]))
+                os.chmod(cp, 0o644)
+                os.remove(cp)
+                stores.put_raw(sc.odb.path, md5hex(prior[same[0]]), prior[same[0]])
+        relink = rng.random() < 0.5
+        r2 = sc.checkout(t2, [link], force=False, relink=relink)
+        after = sc.walk()
+        r3 = sc.checkout(t2, [link], force=False, relink=False)
+        case = {"commit_between": {"prior": {"/".join(k): v.decode("latin1") for k, v in prior.items()}, "committed_later": sorted("/".join(k) for k in fresh),
+                                    "link": link, "relink": relink, "refetched": refetch, "local": sc.local, "state": sc.state is not None}}
+        ctx.case(case, nontrivial=True)
+        ctx.count("commit_between link=%s relink=%s refetch=%s" % (link, relink, refetch is not None))
+        want = {"/".join(k): md5hex(c) for k, c in target.items()}
+        ctx.oracle("ok" in r1 and "ok" in r2 and {k: v[0] for k, v in after.items()} == want, case,
+                   {"why": "checkout after the contents were committed did not leave the target", "first": r1, "second": r2})
+        if not relink:
+            ctx.oracle(r2 == {"ok": False}, case, {"why": "a checkout over a workspace that equals the (now cached) target did not report 'nothing to do'", "result": r2})
+        ctx.oracle(r3 == {"ok": False}, case, {"why": "a further checkout did not report 'nothing to do'", "result": r3})
+        if relink and "ok" in r2:
+            bad = {k: v[1] for k, v in after.items() if v[3] > 0 and (v[1] != link or not v[2])}
+            ctx.oracle(not bad, case, {"why": "a relinking checkout left files that are not links of the configured type to the object now in the cache", "files": bad})
     finally:
         sc.close()
 
@@ -353,7 +427,7 @@ def run(ctx):
     ctx.rule = (
         "exhaustive _needs_relink table; (prior, target) pairs over nested trees with duplicate contents and empty files, the 3x3 "
         "(existing link type, configured link type) matrix, relink on/off, both store classes, with/without state, user edits "
-        "between the checkouts; single-file targets over the same link matrix; each followed by a second checkout. non-trivial = link type changes or the user edited the workspace"
+        "between the checkouts; single-file targets over the same link matrix; each followed by a second checkout; histories in one process where contents seen uncached are committed (or an object is collected and re-fetched) before the next checkout. non-trivial = link type changes or the user edited the workspace"
     )
     ctx.assumptions = ["reflink is unavailable in the sandbox (copy is what runs)", "hard-linking an empty file creates a fresh empty file: for empty files only symbolic link versus regular file is compared"]
     relink_table(ctx)
@@ -361,6 +435,8 @@ def run(ctx):
         check_force(ctx, ctx.rng)
     for _ in range(ctx.n(40, 400)):
         check_single_file(ctx, ctx.rng)
+    for _ in range(ctx.n(40, 400)):
+        check_commit_between(ctx, ctx.rng)
 
 
 def search(ctx):
@@ -368,6 +444,8 @@ def search(ctx):
         check_force(ctx, ctx.rng)
     for _ in range(300):
         check_single_file(ctx, ctx.rng)
+    for _ in range(300):
+        check_commit_between(ctx, ctx.rng)
 
 
 def replay(ctx, payload):
